@@ -18,8 +18,9 @@
    (A) the intended clause tree of abstract statements composed through the API and (B) the clause tree built
    from the builder records.
    C01_api_*     laws of the functional model of the builder methods (Model/Api.v, compared call by call with the
-                 implementation in the api mode of the harness): WHERE / HAVING conditions accumulate in call
-                 order and change nothing else of the statement; of two calls of a single-valued option the last
+                 implementation in the api mode of the harness): WHERE / HAVING conditions, the SET items of UPDATE, the
+                 VALUES rows of INSERT and the conditions of DELETE accumulate in call order (any number of calls) and
+                 change nothing else of the statement; of two calls of a single-valued option the last
                  wins; independent options commute; an alias goes to the FROM item added last.  The remaining
                  methods are covered by the call-by-call comparison and by (A). *)
 From Coq Require Import String List ZArith Bool.
@@ -50,6 +51,26 @@ Section C01.
       fold_left (fun r e => call V "Having" [AExp e] r) es (Some (ESelect w c p))
       = Some (ESelect w c (p_set_having V p (p_having p ++ es))).
   Proof. exact (having_accumulates V). Qed.
+
+  Theorem C01_api_update_set_accumulates :
+    forall b (items : list (string * exp V)),
+      fold_left (fun r it => call V "Set" [AStr (fst it); AExp (snd it)] r) items (Some (EUpdate b))
+      = Some (EUpdate (mkUpd (u_with b) (u_table b) (u_alias b) (u_set b ++ items)%list (u_from b) (u_where b) (u_returning b))).
+  Proof. exact (update_set_accumulates V). Qed.
+
+  Theorem C01_api_insert_values_accumulate :
+    forall b (rows : list (list (exp V))),
+      fold_left (fun r row => call V "Values" [AExps row] r) rows (Some (EInsert b))
+      = Some (EInsert (ins_set V b (i_alias b) (i_cols b) (i_default b)
+                         (match rows with [] => i_values b | _ => Some ((match i_values b with Some l => l | None => [] end) ++ rows)%list end)
+                         (i_query b) (i_ctargets b) (i_ctwhere b) (i_cconstraint b) (i_caction b) (i_cset b) (i_cwhere b) (i_returning b))).
+  Proof. exact (insert_values_accumulate V). Qed.
+
+  Theorem C01_api_delete_where_accumulates :
+    forall b (es : list (exp V)),
+      fold_left (fun r e => call V "Where" [AExp e] r) es (Some (EDelete b))
+      = Some (EDelete (mkDel (d_with b) (d_table b) (d_alias b) (d_using b) (d_where b ++ es)%list (d_returning b))).
+  Proof. exact (delete_where_accumulates V). Qed.
 
   Theorem C01_api_limit_last_wins :
     forall w c p (a b : exp V),
@@ -125,6 +146,9 @@ Print Assumptions C01_frame.
 Print Assumptions C01_leaves.
 Print Assumptions C01_api_where_accumulates.
 Print Assumptions C01_api_having_accumulates.
+Print Assumptions C01_api_update_set_accumulates.
+Print Assumptions C01_api_insert_values_accumulate.
+Print Assumptions C01_api_delete_where_accumulates.
 Print Assumptions C01_api_limit_last_wins.
 Print Assumptions C01_api_offset_last_wins.
 Print Assumptions C01_api_limit_where_commute.
